@@ -1281,7 +1281,12 @@ def _parse_header(line: str) -> tuple[str, dict[str, str]]:
             name = p[:i].strip().lower()
             value = p[i + 1 :].strip()
             params.append((name, native_str(value)))
-    decoded_params = email.utils.decode_params(params)
+    try:
+        decoded_params = email.utils.decode_params(params)
+    except Exception:
+        # decode_params chokes on malformed RFC 2231 continuations (e.g. both
+        # ``x*=`` and ``x*0=`` for the same name); keep the parameters undecoded.
+        decoded_params = list(params)
     decoded_params.pop(0)  # get rid of the dummy again
     pdict = {}
     for name, decoded_value in decoded_params:
@@ -1291,7 +1296,13 @@ def _parse_header(line: str) -> tuple[str, dict[str, str]]:
             # the (charset, language, text) tuples of RFC 2231 extended values.
             charset, language, text = decoded_value
             decoded_value = (charset, language, email.utils.unquote(text))
-        pdict[name] = email.utils.collapse_rfc2231_value(decoded_value)
+        try:
+            pdict[name] = email.utils.collapse_rfc2231_value(decoded_value)
+        except ValueError:
+            # collapse_rfc2231_value only handles unknown charsets (LookupError);
+            # codecs such as "idna" or "punycode" and charset names containing NUL
+            # raise UnicodeError/ValueError. Fall back to the raw text as it does.
+            pdict[name] = email.utils.unquote(decoded_value[2])
     return key, pdict
 
 
